@@ -1,4 +1,5 @@
 """C03 — merge keys equal the explicitly merged mapping with fixed precedence (DESIGN §4 C03)."""
+import re
 from ..mir import MissingAnchor, sym_contains
 from ..rules import (render, aggregates, last_seg, bool_switches, must_pass, switch_edges, ev_switches, str_compare_consts, compares, err_return_blocks)
 
@@ -264,6 +265,15 @@ def run(ctx):
                         ops.append(last_seg(fx.callee_decl(t2)))
                 moved = any(s_["k"] == "assign" and s_["rv"]["k"] == "use" and (s_["rv"]["o"].get("mv") or {}).get("l") == bl and not (s_["rv"]["o"].get("mv") or {}).get("pr") for _b, _i, s_ in f2.stmts())
                 bad = sorted(set(ops) - {"push", "pop", "new", "with_capacity", "is_empty", "len", "reserve"})
+                # the other way to take the last batch first: `for x in list.into_iter().rev()` (the list is consumed whole)
+                reversed_whole = False
+                if "into_iter" in ops:
+                    for b3, t3 in f2.calls():
+                        if last_seg(fx.callee_decl(t3)) == "rev" and t3["args"] and re.match(r"^into_iter\(%s\)$" % re.escape(nm), render(f2.sym_operand(t3["args"][0]))):
+                            reversed_whole = True
+                    if reversed_whole:
+                        bad = [x for x in bad if x != "into_iter"]
+                        ops = ops + ["pop"]
                 ctx.check("push" in ops and "pop" in ops and not bad, "ORDER", "C03:ORDER:batches-last-first:%s:%s" % (f2.name, nm), "`%s` is filled with push and drained with pop (last source first)" % nm,
                           "%s consumes its list of merge batches `%s` with %s: the batches are taken first-to-last, so an earlier merge source overrides a later one" % (f2.name, nm, bad or "something other than pop"), config, ctx.where(f2))
         ctx.floor("ORDER.batch-lists", nb, 3, config)
